@@ -719,18 +719,28 @@ def h_eval(tier: str, fam: str, lo: int, hi: int, neg: bool, vmax: int, smax: in
     d["y"] = y
     d["s"] = s
     got = _call(closure, obj)
-    if isinstance(got, _Raised):
-        return True  # raised instead of answering (e.g. ZeroDivisionError): nothing is synchronised wrongly
     env = {"x": x, "y": y, "s": s}
     want = ref(n, env)
-    matches_eval = got is True or (isinstance(got, bool) and bool(got))
     matches_sql = want is True or (isinstance(want, bool) and bool(want))
-    if matches_eval == matches_sql:
-        return True
-    key = blame_key(blame(n, env, obj))
+    if isinstance(got, _Raised):
+        # The evaluator runs *after* the UPDATE has been executed (_do_post_synchronize_evaluate): an exception at
+        # this point (ZeroDivisionError for x / 0, x % 0 where SQL yields NULL) leaves a row the UPDATE matched
+        # changed in the database while the statement raises and the in-session object keeps its old values.
+        if not matches_sql:
+            return True  # raised, and the database row is untouched as well
+        key = raise_key(got.e)
+    else:
+        matches_eval = got is True or (isinstance(got, bool) and bool(got))
+        if matches_eval == matches_sql:
+            return True
+        key = blame_key(blame(n, env, obj))
     if _native(_over_cap, "%s/%s/%d/%d/%s" % (tier, fam, lo, hi, neg), key):
         assume(False)
     return False
+
+
+def raise_key(e):
+    return "evaluator-raises-%s-after-the-UPDATE-was-executed" % type(e).__name__
 
 
 # ------------------------------------------------------------------------------------------
@@ -747,7 +757,9 @@ META = {
                    "index is a symbolic int decided by the solver. Replay is end-to-end: the row is inserted into in-memory "
                    "SQLite, the real session.execute(update(A).where(crit).values(x=A.x + 1000, m=A.m + 1), "
                    "synchronize_session='evaluate') runs and the in-session object is compared with the row; only that "
-                   "disagreement is reported.",
+                   "disagreement is reported. (The framework also re-runs the representative input of every *passing* path through "
+                   "the same end-to-end check.) A run-time exception of the evaluator (ZeroDivisionError where SQL yields NULL) is "
+                   "accepted only if the UPDATE does not match the row: the evaluator runs after the UPDATE was executed.",
     "functions": [
         "orm.evaluator._EvaluatorCompiler.{process,visit_grouping,visit_null,visit_column,visit_clauselist,visit_binary,"
         "visit_or_clauselist_op,visit_and_clauselist_op,visit_is_binary_op,visit_is_not_binary_op,_straight_evaluate,"
@@ -773,8 +785,6 @@ META = {
         "SQLite's ASCII case-insensitive LIKE: string alphabets are lower-case/punctuation only",
         "`%` applied to a `/` result, floats, numbers beyond the range, strings longer than 2",
         "expired / unloaded attributes (_EXPIRED_OBJECT), objects of other classes, relationship comparisons",
-        "criteria for which the evaluator raises at run time (ZeroDivisionError for x / 0, x % 0): the UPDATE is not "
-        "emitted, nothing is desynchronised ('instead raises')",
     ],
     "stubs": [],
     "assumptions": [
@@ -812,6 +822,12 @@ def classify(hname, args, rep):
         return ("C43:harness-exception:%s" % args["fam"], "criteria %s on row %s: %s" % (show(n), env, exc))
     obj = A()
     obj.__dict__.update(env)
+    root = _call(_sub_closure(n), obj)
+    if isinstance(root, _Raised):
+        return ("C43:" + raise_key(root.e),
+                "UPDATE ... WHERE %s with synchronize_session='evaluate' on row x=%r y=%r s=%r: the UPDATE is executed (SQL "
+                "yields NULL where Python raises), then the evaluator raises %r; the row is changed in the database, the "
+                "in-session object is not" % (show(n), env["x"], env["y"], env["s"], root.e))
     b = blame(n, env, obj)
     key = "C43:" + blame_key(b, env)
     if b is None:
